@@ -463,4 +463,13 @@ theorem gen_fill_zero_roots_eq_model {α : Type} (O : Model.Poly.Ops α) (xs res
       ∃ msg, Model.Poly.fillZeroRoots O xs result = .panic msg) :=
   C20G.gen_fill_zero_roots_eq O xs result hr
 
+/-- ★ `poly_from_roots` (regenerated) IS the model's `polyFromRoots` (the function `poly_from_roots_spec` above is
+    about), for every list of roots whose length + 1 a `usize` holds -/
+theorem gen_poly_from_roots_eq_model {α : Type} (O : Model.Poly.Ops α) (xs : List α)
+    (hlen : xs.length + 1 < 18446744073709551616) :
+    (Gen.Polynom.poly_from_roots_ok O.toX xs = true →
+      Model.Poly.polyFromRoots O xs = .ok (Gen.Polynom.poly_from_roots O.toX xs)) ∧
+    (Gen.Polynom.poly_from_roots_ok O.toX xs = false → ∃ msg, Model.Poly.polyFromRoots O xs = .panic msg) :=
+  C20G.gen_poly_from_roots_eq O xs hlen
+
 end WinterProofs.C20
